@@ -142,7 +142,7 @@ fn movement_cands(cols: u32, lines: u32) -> Vec<Vec<Op>> {
 
 pub fn c05_subs() -> Vec<Sub> {
     let n = c05_shards().len();
-    vec![exh_sub("exh-movement", (n, n), stepper_run(cfg_for("C05")), |i, _tier, acc| {
+    vec![big_sub("C05"), exh_sub("exh-movement", (n, n), stepper_run(cfg_for("C05")), |i, _tier, acc| {
         let (cols, lines, region) = c05_shards()[i];
         let cands = movement_cands(cols, lines);
         let mut ex = Explorer::new(cfg_for("C05"), acc);
@@ -176,6 +176,129 @@ pub fn c05_subs() -> Vec<Sub> {
     })]
 }
 
+/// Large-screen enumeration shared by C05/C06/C07/C13: every parameter value (not only the
+/// boundary classes) from a lattice of cursor positions on 80x24, 132x24 and 140x40, so that
+/// mid-range rows/columns/counts are covered systematically and not only by chance.
+const BIG: &[(u32, u32)] = &[(80, 24), (132, 24), (140, 40)];
+
+fn big_positions(cols: u32, lines: u32, tier: Tier) -> Vec<(u32, u32)> {
+    let (xs, ys): (Vec<u32>, Vec<u32>) = if tier == Tier::Thorough {
+        (
+            vec![0, 1, 7, 8, 31, 32, 63, 64, 65, cols / 2, 127.min(cols - 1), 128.min(cols - 1), cols - 2, cols - 1, cols],
+            vec![0, 1, lines / 2, 31.min(lines - 1), 32.min(lines - 1), lines - 2, lines - 1],
+        )
+    } else {
+        (vec![0, 64, 129.min(cols - 2), cols], vec![0, lines / 2 + 1, lines - 1])
+    };
+    let mut v = Vec::new();
+    for y in &ys {
+        for x in &xs {
+            if !v.contains(&(*x, *y)) {
+                v.push((*x, *y));
+            }
+        }
+    }
+    v
+}
+
+fn big_setup(region: Option<(u32, u32)>, decom: bool, x: u32, y: u32, cols: u32, fill: bool) -> Vec<Op> {
+    let mut setup = Vec::new();
+    if fill {
+        setup.push(Op::Fill { rows: 0, sparse: true });
+    }
+    if let Some((t, b)) = region {
+        setup.push(Op::Stbm(Some(t), Some(b)));
+    }
+    setup.push(Op::Cup(Some(y + 1), Some(x.min(cols - 1) + 1)));
+    if x == cols {
+        setup.push(Op::Draw("w".into()));
+    }
+    if decom {
+        setup.push(Op::Sc);
+        setup.push(Op::Sm(vec![6], true));
+        setup.push(Op::Rc);
+    }
+    setup
+}
+
+pub fn big_sub(id: &'static str) -> Sub {
+    let n = BIG.len() * 4;
+    exh_sub("exh-large-screens", (n, n), stepper_run(cfg_for(id)), move |i, tier, acc| {
+        let (cols, lines) = BIG[i / 4];
+        let region = [None, Some((5u32, lines - 3)), None, Some((2u32, 9u32))][i % 4];
+        let decom = i % 4 >= 2;
+        let all_c: Vec<N> = std::iter::once(None).chain((0..=cols + 2).map(Some)).collect();
+        let all_l: Vec<N> = std::iter::once(None).chain((0..=lines + 2).map(Some)).collect();
+        let mut cands: Vec<Vec<Op>> = Vec::new();
+        match id {
+            "C05" => {
+                for n in &all_l {
+                    for op in [Op::Cuu(*n), Op::Cud(*n), Op::Cnl(*n), Op::Cpl(*n), Op::Vpa(*n)] {
+                        cands.push(vec![op]);
+                    }
+                    cands.push(vec![Op::FeedStr(Op::Cud(*n).to_sequence(false).unwrap())]);
+                }
+                for n in &all_c {
+                    for op in [Op::Cuf(*n), Op::Cub(*n), Op::Cha(*n)] {
+                        cands.push(vec![op]);
+                    }
+                    cands.push(vec![Op::FeedStr(Op::Cha(*n).to_sequence(false).unwrap())]);
+                }
+                // every row with a few columns, every column with a few rows
+                for a in &all_l {
+                    for b in [None, Some(1), Some(64), Some(65), Some(cols / 2), Some(129), Some(cols)] {
+                        cands.push(vec![Op::Cup(*a, b)]);
+                    }
+                }
+                for b in &all_c {
+                    for a in [None, Some(1), Some(lines / 2), Some(33), Some(lines)] {
+                        cands.push(vec![Op::Cup(a, *b)]);
+                        if tier == Tier::Thorough {
+                            cands.push(vec![Op::FeedStr(Op::Cup(a, *b).to_sequence(false).unwrap())]);
+                        }
+                    }
+                }
+            }
+            "C06" => {
+                for n in &all_l {
+                    cands.push(vec![Op::Il(*n)]);
+                    cands.push(vec![Op::Dl(*n)]);
+                }
+                for a in &all_l {
+                    for b in [None, Some(1), Some(lines / 2), Some(33), Some(lines), Some(lines + 1)] {
+                        cands.push(vec![Op::Stbm(*a, b)]);
+                        cands.push(vec![Op::Stbm(b, *a)]);
+                    }
+                }
+                for op in [Op::Ind, Op::Lf, Op::Ri] {
+                    cands.push(vec![op]);
+                }
+            }
+            "C07" => {
+                for s in [None, Some(0), Some(1), Some(2), Some(3), Some(4)] {
+                    cands.push(vec![Op::Ed(s, None)]);
+                    cands.push(vec![Op::El(s, None)]);
+                }
+                for n in &all_c {
+                    cands.push(vec![Op::Ech(*n)]);
+                }
+            }
+            _ => {
+                for n in &all_c {
+                    cands.push(vec![Op::Ich(*n)]);
+                    cands.push(vec![Op::Dch(*n)]);
+                }
+                cands.push(vec![Op::Sm(vec![4], false), Op::Draw("i\u{4e2d}".into())]);
+            }
+        }
+        let mut ex = Explorer::new(cfg_for(id), acc);
+        for (x, y) in big_positions(cols, lines, tier) {
+            let setup = big_setup(region, decom, x, y, cols, id != "C05");
+            ex.state(cols, lines, &setup, &mut cands.clone().into_iter());
+        }
+    })
+}
+
 // ------------------------------------------------------------------------------------------
 // C06
 
@@ -186,7 +309,7 @@ pub fn c06_subs() -> Vec<Sub> {
     let n = C06_GEOMS.len() * C06_FILLS.len();
     let mut cfg = cfg_for("C06");
     cfg.adopt = vec![];
-    vec![exh_sub("exh-scroll", (n, n), stepper_run(cfg_for("C06")), move |i, _tier, acc| {
+    vec![big_sub("C06"), exh_sub("exh-scroll", (n, n), stepper_run(cfg_for("C06")), move |i, _tier, acc| {
         let (cols, lines) = C06_GEOMS[i / C06_FILLS.len()];
         let fill = C06_FILLS[i % C06_FILLS.len()];
         let mut cands: Vec<Vec<Op>> = Vec::new();
@@ -251,7 +374,7 @@ const C07_GEOMS: &[(u32, u32)] = &[(1, 1), (3, 1), (1, 3), (2, 2), (4, 3), (5, 4
 
 pub fn c07_subs() -> Vec<Sub> {
     let n = C07_GEOMS.len() * 2;
-    vec![exh_sub("exh-erase", (n, n), stepper_run(cfg_for("C07")), |i, _tier, acc| {
+    vec![big_sub("C07"), exh_sub("exh-erase", (n, n), stepper_run(cfg_for("C07")), |i, _tier, acc| {
         let (cols, lines) = C07_GEOMS[i / 2];
         let sparse = i % 2 == 1;
         let sels: [N; 8] = [None, Some(0), Some(1), Some(2), Some(3), Some(4), Some(5), Some(9999)];
@@ -488,6 +611,7 @@ pub fn c13_subs() -> Vec<Sub> {
     let run = stepper_run(cfg_for("C13"));
     let r = run.clone();
     vec![
+        big_sub("C13"),
         exh_sub("exh-edit-sequences", (n, n), run.clone(), move |i, tier, acc| {
             let a = c13_alphabet(cols);
             let first = i % alpha;
